@@ -14,6 +14,7 @@ commits of findings/C16.txt; the snapshot's behaviour is kept as `spliceOld`, `t
 -/
 import Kap.Proofs.C16Ticks
 import Kap.Proofs.C16Range
+import Kap.Proofs.C16Gen
 namespace Kap.Props.C16
 open Kap.C16
 
@@ -336,6 +337,60 @@ theorem only_declared_dbrps (declared : List DBRP) (nodes : List (List DBRP)) :
     simp only [onlyDeclared, Bool.eq_false_iff, ne_eq, List.all_eq_true]
     intro hall
     exact hc (hall d hd)
+
+/-! ### the arithmetic found in the Go source today is the model's
+
+`/verif/extract/c16` (go/ast) rewrites `Kap/Gen/C16.lean` from batch.go / query.go on every run; a shape it does not
+recognise becomes `.unknown`, evaluates to `none`, and these theorems stop checking (fail closed). -/
+
+/-- `doQuery`: `stop := now − offset`; SetStartTime(stop − period); SetStopTime(stop) — the model's `tickRange`. -/
+theorem gen_doQuery_range (tick offset period : Int) :
+    let ρ := envOf [("now", tick), ("n.b.Offset", offset), ("n.b.Period", period)]
+    (Gen.doQueryStop.eval ρ).bind (fun st =>
+      (Gen.doQueryStartArg.eval (ρ.set "stop" st)).bind (fun a =>
+        (Gen.doQueryStopArg.eval (ρ.set "stop" st)).map (fun b => (a, b)))) = some (tickRange offset period tick) := gen_doQuery_range' tick offset period
+
+/-- `timeTicker.Next` — the model's `tickerNext`. -/
+theorem gen_tickerNext (every now : Int) (align : Bool) :
+    let ρ := envOf [("now", now), ("t.every", every)] [("t.align", align)]
+    (Gen.nextCond.eval ρ).bind (fun c => if c then Gen.nextThen.eval ρ else Gen.nextElse.eval ρ)
+      = some (tickerNext every align now) := gen_tickerNext' every now align
+
+/-- `SetStartTime`: under alignGroup with a time dimension the offset becomes `start % length` (Go's remainder). -/
+theorem gen_groupByOffset (s len : Int) (ag hasTime hasOff : Bool) :
+    let ρ := envOf [("s", s), ("q.groupByTimeDL.Val", len)]
+      [("q.alignGroup", ag), ("q.groupByTimeDL != nil", hasTime), ("q.groupByOffsetDL != nil", hasOff)]
+    Gen.gbOffsetGuard.eval ρ = some (ag && hasTime && hasOff) ∧ Gen.gbOffsetValue.eval ρ = some (Int.tmod s len) := gen_groupByOffset' s len ag hasTime hasOff
+
+/-- `Dimensions`: both accepted forms of a time dimension are refused exactly when the model's `validDims` says so. -/
+theorem gen_dimensions_reject (len off : Int) :
+    Gen.dimensionRejects.map (BE.eval (envOf [("dim", len), ("dim.Length", len)])) =
+      [some (!validDims (some (len, off))), some (!validDims (some (len, off)))] := gen_dimensions_reject' len off
+
+/-- `Queries`: `current` starts at `start` and advances by `n.ticker.Next(current)`; the loop leaves when that is the
+zero time or after `stop`, then when `qstop = current − offset` is after `now`; the clone gets
+[qstop − period, qstop) — the model's `histTicks` / `tickRange`; a zero `stop` means `now` (`effStop`). -/
+theorem gen_queries_loop (c stop now offset period : Int) (next : Int → Option Int) (cur : Int) :
+    Gen.queriesInit = .name "start.Local()" ∧
+    Gen.queriesAdvance.eval (envOf [("current", cur)] [] [] next) = next cur ∧
+    (let ρ := envOf [("current", c), ("stop", stop), ("now", now), ("n.b.Offset", offset), ("n.b.Period", period)]
+     (Gen.queriesQstop.eval ρ) = some (c - offset) ∧
+     Gen.queriesBreaks.map (BE.eval (ρ.set "qstop" (c - offset))) = [some (decide (c > stop)), some (decide (c - offset > now))] ∧
+     (Gen.queriesStartArg.eval (ρ.set "qstop" (c - offset)), Gen.queriesStopArg.eval (ρ.set "qstop" (c - offset)))
+       = (some (tickRange offset period c).1, some (tickRange offset period c).2)) ∧
+    (Gen.queriesBreaks.head?.bind (BE.eval (envOf [("stop", stop)] [] ["current"]))) = some true ∧
+    Gen.queriesStopDefaultsToNowWhen.eval (envOf [] [] ["stop"]) = some true ∧
+    Gen.queriesStopDefaultsToNowWhen.eval (envOf [("stop", stop)]) = some false :=
+  gen_queries_loop' c stop now offset period next cur
+
+/-- The batch time stamp: `stop` when the result has no point time or the query is not grouped by time — the
+model's `batchTime`. -/
+theorem gen_batchTime (grouped : Bool) (ptMax : Option Int) (stop : Int) :
+    let ρ := envOf ([("stop", stop)] ++ (match ptMax with | some t => [("bch.Begin().Time()", t)] | none => []))
+      [("n.query.IsGroupedByTime()", grouped)] (match ptMax with | some _ => [] | none => ["bch.Begin().Time()"])
+    (Gen.batchTimeCond.eval ρ).bind (fun c => if c then Gen.batchTimeValue.eval ρ else ptMax)
+      = some (batchTime grouped ptMax stop) :=
+  gen_batchTime' grouped ptMax stop
 
 /-! ### the driver's finite check is exact -/
 
